@@ -30,7 +30,8 @@ from unified_planning.engines.compilers.usertype_fluents_remover import Usertype
 from unified_planning.engines.compilers.utils import get_fresh_name
 from unified_planning.engines.results import CompilerResult
 from unified_planning.environment import Environment
-from unified_planning.exceptions import UPProblemDefinitionError, UPUsageError
+from unified_planning.exceptions import (UPConflictingEffectsException, UPProblemDefinitionError,
+                                         UPUnboundedVariablesError, UPUsageError)
 from unified_planning.model import Fluent, InstantaneousAction, Object, Problem
 from unified_planning.model.metrics import MinimizeActionCosts
 from unified_planning.model.operators import OperatorKind as OK
@@ -363,6 +364,8 @@ def build(ps):
     ctx = upx.Ctx(types)
     ctx.env.error_used_name = True
     P, ctx = upp.build_problem(ps, ctx)
+    for n, _ in types:          # a declared type stays declared even when no object / fluent / parameter uses it yet
+        P._add_user_type(ctx.utypes[n])
     return P, ctx
 
 
@@ -395,6 +398,12 @@ def run_compile(cname, P):
         if any(r in msg for r in REJECTIONS):
             return "rejected", msg[:80]
         return "raised", f"{type(e).__name__}: {msg[:160]}"
+    except UPConflictingEffectsException as e:
+        return "rejected", "conflicting effects in the input action"
+    except UPUnboundedVariablesError as e:
+        if cname in ("cond", "pipe-qcdn", "pipe-gc"):
+            return "rejected", "conditional effect under a forall cannot be removed"
+        return "raised", f"{type(e).__name__}: {str(e)[:160]}"
     except Exception as e:
         return "raised", f"{type(e).__name__}: {str(e)[:160]}"
     return "ok", res
@@ -563,6 +572,8 @@ def back_conversion(orig, res):
 def check_compile(cname, ps):
     """the property on one (compiler, problem): None | failing clause.  Second value: run status for stats."""
     P, _ = build(ps)
+    if wellformed(P) is not None:
+        return None, "input-ill-formed"
     st, res = run_compile(cname, P)
     if st in ("unsupported", "rejected"):
         return None, st
@@ -625,3 +636,228 @@ def shrink(payload):
         plan = payload[4]
         for i in range(1, len(plan)):
             yield payload[:4] + [plan[:i] + plan[i + 1:]]
+
+
+# ------------------------------------------------------------------------------------------------
+# interface
+# ------------------------------------------------------------------------------------------------
+
+QUICK = {"fresh": 700, "result": 150, "problems": 110}
+THOROUGH = {"fresh": 12000, "result": 1500, "problems": 1600}
+CHEAP = ["grounder", "cond", "disj", "neg", "quant", "utf", "bounded", "inv", "undef", "pipe-qg", "pipe-qcdn", "pipe-gc", "traj"]
+
+
+def cases(rng, tier):
+    n = QUICK if tier == "quick" else THOROUGH
+    for kind, (a, b, c) in enumerate(zip(*[_spread(n[k], 10) for k in ("fresh", "result", "problems")])):
+        for _ in range(a):
+            yield gen_fresh(rng)
+        for _ in range(b):
+            yield gen_result(rng)
+        for _ in range(c):
+            ps = gen_planted(rng) if rng.random() < 0.3 else gen_problem(rng)
+            try:
+                build(ps)
+            except Exception:
+                continue            # the real constructors reject the drawn problem (e.g. a conflicting effect pair)
+            cs = ["grounder"] + rng.sample(CHEAP[1:], 3)
+            for cn in cs:
+                yield ["compile", cn, ps]
+
+
+def _spread(n, k):
+    return [n // k + (1 if i < n % k else 0) for i in range(k)]
+
+
+def _compile_obs(payload):
+    """runs the real compiler; -> (status, observation dict)"""
+    cname, ps = payload[1], payload[2]
+    P, _ = build(ps)
+    if wellformed(P) is not None:
+        return "input-ill-formed", None
+    st, res = run_compile(cname, P)
+    if st != "ok":
+        return st, res
+    return st, (P, res)
+
+
+def _ground_trace(P, res):
+    """the naming requests of the grounder as observed on the real run, and its real answer"""
+    helper = GrounderHelper(P, None, True)
+    surv = {}
+    for a in res.problem.actions:
+        back = res.map_back_action_instance(ActionInstance(a))
+        surv[(back.action.name, tuple(str(x) for x in back.actual_parameters))] = a.name
+    acts, real = [], []
+    for a in P.actions:
+        insts = []
+        for params in helper.get_possible_parameters(a):
+            key = (a.name, tuple(str(x) for x in params))
+            insts.append(["inst", "T" if key in surv else "F"] + list(key[1]))
+        acts.append(["a", a.name, insts])
+    for a in res.problem.actions:
+        back = res.map_back_action_instance(ActionInstance(a))
+        real.append([a.name, back.action.name] + [str(x) for x in back.actual_parameters])
+    return ["ground-names", ["names"] + [n for _, n in all_names(P)], ["actions"] + acts], real
+
+
+def _unique(names):
+    return "T" if len(set(names)) == len(names) else "F"
+
+
+_cache = {}
+
+
+def _run(payload):
+    """(impl answer, model payload) of one case; cached by case text because run_check asks for both separately"""
+    key = sexp.dumps(payload)
+    if key in _cache:
+        return _cache[key]
+    if len(_cache) > 4:
+        _cache.clear()
+    h = payload[0]
+    if h == "fresh":
+        P, out = run_fresh(payload)
+        r = (["names"] + out + [["unique", _unique([n for _, n in all_names(P)])]], payload)
+    elif h == "result":
+        r = (run_result(payload), payload)
+    elif h == "compile":
+        st, obs = _compile_obs(payload)
+        if st != "ok":
+            if st == "raised":
+                r = (["raised", obs], ["skip", "raised"])
+            else:
+                r = (["skip", st], ["skip", st])
+        else:
+            P, res = obs
+            declared = [n for _, n in all_names(res.problem)]
+            if payload[1] == "grounder":
+                mp, real = _ground_trace(P, res)
+                r = (["acts"] + real + [["unique", _unique(declared)]], mp)
+            else:
+                r = (["unique", _unique(declared)], ["declared", ["names"] + declared])
+    else:
+        raise ValueError(h)
+    _cache[key] = r
+    return r
+
+
+def impl(payload):
+    return _run(payload)[0]
+
+
+def model_payload(payload):
+    return _run(payload)[1]
+
+
+def _fresh_entered_search(payload):
+    taken = set(n for _, n in payload[1][1:])
+    hit = False
+    for _, base, params, trail in payload[2][1:]:
+        j = "_".join([base] + list(params) + ([trail[1]] if trail[0] == "some" and trail[1] else []))
+        if j in taken:
+            hit = True
+        k, n = 0, j
+        while n in taken:
+            n = f"{j}_{k}"
+            k += 1
+        taken.add(n)
+    return hit
+
+
+def nontrivial(payload, ans):
+    h = payload[0]
+    if h == "fresh":
+        return _fresh_entered_search(payload)
+    if h == "result":
+        return isinstance(ans, list) and ans[0] == "ok" and payload[2] != "none" and len(payload[4]) > 1
+    if h == "compile":
+        if not isinstance(ans, list) or ans[0] in ("skip", "raised"):
+            return False
+        if payload[1] == "grounder":
+            # some grounded name is not the plain join of its origin (the counter search was entered), or two instances
+            # share their joined base
+            joins = ["_".join(a[1:]) for a in ans[1:-1]]
+            return len(set(joins)) < len(joins) or any(a[0] != "_".join(a[1:]) for a in ans[1:-1])
+        return True
+    return False
+
+
+def stats(payload, ans):
+    h = payload[0]
+    t = [h]
+    if h == "compile":
+        st = ans[0] if isinstance(ans, list) else str(ans)
+        t.append(f"compile:{payload[1]}:{'ok' if st in ('acts', 'unique') else ans[1] if st == 'skip' else st}")
+        if st == "acts":
+            joins = ["_".join(a[1:]) for a in ans[1:-1]]
+            if len(set(joins)) < len(joins):
+                t.append("grounder:two-instances-share-joined-name")
+            if any(a[0] != "_".join(a[1:]) for a in ans[1:-1]):
+                t.append("grounder:counter-suffix-used")
+    elif h == "fresh":
+        if _fresh_entered_search(payload):
+            t.append("fresh:counter-search")
+    elif h == "result":
+        t.append("result:" + (ans[0] if ans[0] == "error" else ans[1] if isinstance(ans[1], str) else "back-converted"))
+    return t
+
+
+def oracle(payload):
+    """The property on the real code, from its text: compile succeeds (documented rejections excepted), every name of the
+    compiled problem is unique, every referenced symbol is declared, a plan back-conversion is available and usable;
+    names with separators never clash."""
+    h = payload[0]
+    if h == "compile":
+        v, _ = check_compile(payload[1], payload[2])
+        return v
+    if h == "fresh":
+        try:
+            P, out = run_fresh(payload)
+        except UPProblemDefinitionError as e:
+            return f"registering a fresh name raised a name clash: {str(e)[:80]}"
+        names = [n for _, n in all_names(P)]
+        if len(set(names)) != len(names):
+            return "names obtained through get_fresh_name clash"
+        return None
+    if h == "result":
+        _, pb, mb, bk, plan = payload
+        ans = run_result(payload)
+        if pb == "problem" and (mb != "none") != (bk != "none"):
+            # a result with a problem and exactly one way back: the back-conversion must be available
+            if ans[0] != "ok" or ans[1] == "no-back-conversion":
+                return "a result with a problem and an action map-back has no usable plan_back_conversion"
+        return None
+    return None
+
+
+def known_cause(payload):
+    if payload[0] != "compile":
+        return None
+    cname, ps = payload[1], payload[2]
+    if cname == "utf":
+        # a numeric expression of a metric applies a fluent to the value of a user-typed fluent
+        ms = sexp.dumps(upp.get(ps, "metrics"))
+        for ref, _ in upp.get(ps, "fluents"):
+            if isinstance(ref[1], list) and ref[1][0] == "user" and sexp.dumps(["fl", ref]) [:-1] in ms:
+                return "C08-utf-metric-usertype-fluent"
+    return None
+
+
+MANIFEST = {
+    "level_text": ("Lean 4 theorems (Props/C08.lean) over executable models of utils.get_fresh_name, of the naming discipline of a "
+                   "compiler (requests answered against the name set of the problem under construction, as the repaired "
+                   "GrounderHelper does) and of the CompilerResult decision table: the counter search terminates without fuel "
+                   "and returns a name outside the set, any sequence of fresh-named additions keeps all names pairwise distinct "
+                   "whatever separators the identifiers contain (with a kernel-checked clash for the stale-set discipline of the "
+                   "unrepaired grounder: move(a_b,c) / move(a,b_c)), and a result with a problem and an action map-back has a "
+                   "plan back-conversion equal to replace_action_instances. 'Every reference declared' is proved for the "
+                   "parameter substitution of grounding only (partial). The models are tied to the code by a differential "
+                   "correspondence check; every compiler is additionally run on adversarially renamed problems under an "
+                   "oracle of the property (uniqueness, declaredness, back-conversion) on the real code."),
+    "level_note": ("Trusted: Lean kernel; axioms propext, Classical.choice, Quot.sound; the correspondence harness. Partial: the "
+                   "transformations of the compilers are not modelled (oracle on the real code only); temporal, multi-agent, "
+                   "interpreted-function and conformant compilers are not exercised."),
+    "technique": "Lean 4 proof + model/code correspondence + property oracle over all compilers",
+    "design_ref": "DESIGN.md §5 C08",
+}
